@@ -203,6 +203,22 @@ SPECS = {
                 dict(name="k_CN_none", target="k_CN", occ=2, ints=["N_timeSteps"], thm="k_CN", clause="k_CN = N_timeSteps + 1 when no time reaches cnt"),
             ]),
         ]),
+    "Utils": dict(
+        file="GenUtils.lean", namespace="Snow.Gen.FU",
+        module="SnowProofs.Props.GenTie.Evap", thm_ns="Snow.GenTie.Evap",
+        hand="SnowModel/EvapFormulas.lean, EvapFormulas2D.lean", func="utils.py",
+        title="from src/ethz_snow/utils.py (the three VISF formulas, formula mode: pi is the parameter np_pi)",
+        groups=[
+            ("utils.py", "vapour_pressure_liquid", [
+                dict(name="p_liq", target="p_liq", thm="pLiquid", clause="Murphy-Koop liquid correlation"),
+            ]),
+            ("utils.py", "vapour_pressure_solid", [
+                dict(name="p_sol", target="p_sol", thm="pSolid", clause="Murphy-Koop ice correlation"),
+            ]),
+            ("utils.py", "vapour_flux", [
+                dict(name="N_w", target="N_w", thm="vapourFlux", clause="Hertz-Knudsen flux"),
+            ]),
+        ]),
 }
 
 
